@@ -18,7 +18,11 @@ func Run(prop string, c Case, r *pbt.Rec) error {
 	defer cleanup()
 	imgRoot, cleanup2 := pbt.TempDir("crashimg")
 	defer cleanup2()
-	res, err := Drive(c, dir, imgRoot, r)
+	drive := Drive
+	if len(c.Tear) > 0 {
+		drive = DriveTear
+	}
+	res, err := drive(c, dir, imgRoot, r)
 	defer Cleanup(res)
 	if err != nil {
 		return err
